@@ -229,8 +229,9 @@ def step (s : St) (line : String) : St × Array String :=
     match k.toNat? with
     | some k => ({ s with lag := k }, #[])
     | none => bad s line "bad-op"
-  | ["fault"] =>
-    -- the in-memory metastore has no backend request to fail
+  | ["fault"] | ["fault", "plain"] =>
+    -- the in-memory metastore has no backend request to fail; `plain` = the failure surfaces as a
+    -- plain error value without an API error code (the model does not distinguish: the request failed)
     match s.be with
     | some (.mem _) => (s, #[])
     | some _ => ({ s with fault := true }, #[])
